@@ -12,7 +12,7 @@ LEAN_MODULE = "Proofs.C20"
 _T = "SE.Proofs.C20."
 THEOREMS = [_T + n for n in [
     "C20_box_bins", "C20_bin_of_start", "C20_bins_by_coordinates", "C20_cell_value", "C20_last_wins",
-    "C20_untouched_fill", "C20_axes", "C20_values_length_rejected", "C20_scalar_value"]]
+    "C20_untouched_fill", "C20_axes", "C20_values_length_rejected", "C20_scalar_value", "C20_box_centre_rule"]]
 LEVEL_TEXT = ("Lean theorems over the index-space model of rasterize: a bounding box covers exactly the bins from the one "
               "containing its start (inclusive) to the one containing its end (exclusive) on each axis (in bin indices and "
               "in terms of the axis coordinates, through C16's lookup with clamping), every cell holds the value of the "
@@ -181,6 +181,19 @@ def _holds_monitor(ctx, inp, out):
     for k, rr in enumerate(v["rings"]):
         if rr is None:
             continue
+        # all_touched=True burns every cell through whose interior the boundary passes
+        touched = v["singles"]["touched"][k]
+        for ring in rr:
+            for (px, py), (qx, qy) in zip(ring, ring[1:]):
+                for m in range(16):
+                    t = Fraction(2 * m + 1, 32)
+                    x, y = px + t * (qx - px), py + t * (qy - py)
+                    if x.denominator == 1 or y.denominator == 1:
+                        continue
+                    cx, cy = x.numerator // x.denominator, y.numerator // y.denominator
+                    if 0 <= cx < nx and 0 <= cy < ny and touched[cx][cy] == fill:
+                        return (f"geometry {k} ({inp['geoms'][k]['type']}): with all_touched the boundary passes through "
+                                f"cell ({cx}, {cy}) which is not burnt")
         burnt = [[x != fill for x in row] for row in v["singles"]["plain"][k]]
         bad = ctx.model("centre_rule", {"nx": nx, "ny": ny, "rings": [[[str(x), str(y)] for x, y in r] for r in rr],
                                         "burnt": burnt})
